@@ -73,10 +73,8 @@ def setxPairs (s : St) (st f : Name) : List (Bytes × Id) :=
     | .ids l => l.map fun id => (kv.1, id)
     | .junk => []
 
-/-- entities whose field is nil (for fk fields: nil or empty, which `Eval` cannot tell apart) -/
-def nullIds (s : St) (st f : Name) : List Id :=
-  (s.ents st).filterMap fun p => if p.2.fields f = .nil then some p.1 else none
-
+/-- entities whose field is nil or the empty string (neither is ever indexed, and a non-nullable
+    field accepts neither) -/
 def nullOrEmptyIds (s : St) (st f : Name) : List Id :=
   (s.ents st).filterMap fun p => if (p.2.fields f).bytes = [] then some p.1 else none
 
@@ -85,7 +83,7 @@ def nullOrEmptyIds (s : St) (st f : Name) : List Id :=
 def uniqueDiscs (s : St) (st f : Name) (nullable : Bool) : List Disc :=
   ((s.uniq st f).filter fun kv => !(scalarImage s st f).contains kv).map (fun kv => .uqExtra st f kv.1 kv.2)
   ++ ((scalarImage s st f).filter fun vi => !(s.uniq st f).contains vi).map (fun vi => .uqMissing st f vi.1 vi.2)
-  ++ (if nullable then [] else (nullIds s st f).map fun id => .null st f id)
+  ++ (if nullable then [] else (nullOrEmptyIds s st f).map fun id => .null st f id)
 
 def setDiscs (s : St) (st f : Name) : List Disc :=
   ((setxPairs s st f).filter fun kv => !(listImage s st f).contains kv).map (fun kv => .sxExtra st f kv.1 kv.2)
